@@ -18,11 +18,11 @@ REQUIRED_COUNTERS = ['files-checked']
 
 
 def bounds(tier):
-    return dict(files=200 if tier == 'quick' else 6000, support_vars='2-5', declared_vars='2-8')
+    return dict(files=200 if tier == 'quick' else 6000 * DEEP, support_vars='2-5', declared_vars='2-8')
 
 
 def chunks(tier, seed):
-    n = 200 if tier == 'quick' else 6000
+    n = 200 if tier == 'quick' else 6000 * DEEP
     return [('case_file', [dict(seed=seed * 4099 + k + i) for i in range(20)]) for k in range(0, n, 20)]
 
 
